@@ -344,6 +344,55 @@ def run(ctx: Ctx):
                 "...: every value decoded into those would be copied as Proxy-Info)", floor=100,
                 constructs=lambda c: c.split("#")[0].endswith(".proxy_info"))
 
+    # ---------------- R8 what the helpers assign is what is encoded --------------------------------
+    COPIED = ("proxy_info", "session_id", "origin_host", "origin_realm")
+    ctx.include(c03.run, {"C03-R4"}, "C20-R8",
+                "the attributes the answer helpers assign (session_id, proxy_info, origin_host, "
+                "origin_realm) have an AVP definition in every typed class that declares them - a "
+                "declared attribute without definition accepts the assignment and is never encoded",
+                floor=100, constructs=lambda c: c.split("#")[0].split(".")[-1] in COPIED)
+
+    # ---------------- R9 no implicit writer of the header flags ------------------------------------
+    # to_answer() clears R, E and T; the helpers then assign Result-Code, Origin-Host, ... on the
+    # answer.  Attribute assignment on a message must not reach the header: code the assignment
+    # runs implicitly (__setattr__ / __getattr__ / a property setter of a message class) does not
+    # store the flag octet or one of its bits.
+    ctx.rule("C20-R9", "assigning an AVP attribute of a message does not touch the header flags "
+                       "(no __setattr__ / attribute setter of a message class writes them)", floor=3)
+    FLAGS = ("is_error", "is_request", "is_retransmit", "is_proxyable", "command_flags")
+    mroot = base.classes["Message"]
+    n_impl = 0
+    for ci in [mroot] + model.subclasses(mroot):
+        for f in ci.all_funcs:
+            implicit = f.name in ("__setattr__", "__getattr__", "__getattribute__", "__delattr__",
+                                  "__set_name__", "__set__") or f.is_setter
+            if not implicit:
+                continue
+            n_impl += 1
+            cons = f"{ci.name}.{f.name}:header-flags"
+            ctx.inst(cons, rule="C20-R9")
+            ctx.use(f)
+            for n in ast.walk(f.node):
+                tg = []
+                if isinstance(n, ast.Assign):
+                    tg = n.targets
+                elif isinstance(n, (ast.AugAssign, ast.AnnAssign)):
+                    tg = [n.target]
+                elif isinstance(n, ast.Call) and A.call_name(n) == "setattr" and len(n.args) >= 2 \
+                        and "header" in ast.unparse(n.args[0]):
+                    tg = [n.args[0]]
+                for t in tg:
+                    d = A.dotted(t) or ast.unparse(t)
+                    if "header" in d and (d.split(".")[-1] in FLAGS or isinstance(n, ast.Call)):
+                        ctx.fail(cons, f.loc(n), f"{ci.name}.{f.name} stores `{d}`: assigning an "
+                                 f"attribute of an answer (answer.result_code = 5012 in "
+                                 f"generate_answer / the node's own rejections) changes the flag "
+                                 f"octet that to_answer() has just cleared - answers leave with the "
+                                 f"E (or R / T) bit set", rule="C20-R9")
+    ctx.inst("Message-family:implicit-methods", rule="C20-R9", sample=n_impl)
+    if n_impl < 2:
+        ctx.error(f"only {n_impl} implicit attribute methods found in the Message family", rule="C20-R9")
+
 
 def _ctor_header_stores(model) -> dict[str, set[str]]:
     out: dict[str, set[str]] = {}
